@@ -26,6 +26,7 @@ type scenario struct {
 	lib       map[int]uint64 // before arrival i the consensus' LIB becomes this height
 	orphanCap int
 	badCap    int
+	own       map[int]bool // arrival steps at which the block comes from the node's own block factory (with its block state)
 }
 
 type env struct {
@@ -59,6 +60,8 @@ type session struct {
 	forged0   bool               // a block with number 0 other than genesis became the best block
 	failed    map[string]bool    // one report per (clause) per session
 	libNow    uint64
+	arrived   []*mblock          // every block offered so far (for the hypotheses check)
+	idsForged bool               // two different contents were offered under one identifier (the theorems' honesty hypothesis fails)
 }
 
 func (s *session) op(line, out string, nontrivial bool) {
@@ -80,6 +83,7 @@ func (s *session) replay() interface{} {
 		arr = append(arr, s.sc.blocks[a].name)
 	}
 	return map[string]interface{}{"scenario": s.sc.name, "blocks": names, "arrival-order": strings.Join(arr, " "), "lib": fmt.Sprint(s.sc.lib),
+		"own-blocks-at-steps": fmt.Sprint(s.sc.own), "hardfork": fmt.Sprint(*s.e.w.hf),
 		"orphanCap": s.sc.orphanCap, "badCap": s.sc.badCap, "session": append([]string{}, s.ops...)}
 }
 
@@ -150,9 +154,26 @@ func (e *env) runScenario(sc *scenario) {
 		}
 		b := sc.blocks[a]
 		before := s.snapshot()
-		s.e.run.Pending(b.opLine)
-		cls, msgs := s.n.add(b.blk)
-		s.op(b.opLine, cls+" "+msgs, cls == "ok")
+		line := b.opLine
+		var cls, msgs string
+		own := false
+		if sc.own[step] {
+			if bs, ok := s.n.produce(b); ok {
+				own = true
+				line = "own" + strings.TrimPrefix(b.opLine, "add")
+				s.e.run.Pending(line)
+				cls, msgs = s.n.addOwn(b.blk, bs)
+				s.e.run.Count("own:" + cls)
+			} else {
+				s.e.run.Count("own:not-producible-here")
+			}
+		}
+		if !own {
+			s.e.run.Pending(line)
+			cls, msgs = s.n.add(b.blk)
+		}
+		s.arrived = append(s.arrived, b)
+		s.op(line, cls+" "+msgs, cls == "ok")
 		s.e.run.Count("add:" + cls)
 		s.e.run.Count("kind:" + b.kind.String())
 		if cls == "reorg" {
@@ -187,7 +208,9 @@ func (e *env) runScenario(sc *scenario) {
 			s.oracleC07(before, after, b, cls)
 		}
 		s.oracleArrival(before, after, b, cls)
+		s.oracleCoupling(before, after, b, cls)
 	}
+	s.hypotheses()
 	if s.e.prop == "C07" {
 		s.referenceCheck("end of session")
 	}
@@ -207,7 +230,7 @@ func (s *session) observe() string {
 			byno = append(byno, "-")
 		}
 	}
-	var blocks, rc strings.Builder
+	var blocks, rc, rq, rn strings.Builder
 	for i, h := range s.idHashes {
 		if _, err := cs.GetBlock(h); err == nil {
 			blocks.WriteByte('1')
@@ -219,6 +242,24 @@ func (s *session) observe() string {
 		} else {
 			rc.WriteByte('0')
 		}
+		// the query "receipts of the block with this hash"
+		if s.receiptsByHash(h) {
+			rq.WriteByte('1')
+		} else {
+			rq.WriteByte('0')
+		}
+	}
+	// the query "receipts of the block at this height"
+	for h := uint64(0); h <= s.maxH; h++ {
+		if r, err := chain.VerifC05GetReceiptsByNo(cs, h); err == nil && r != nil {
+			rn.WriteByte('1')
+		} else {
+			rn.WriteByte('0')
+		}
+	}
+	lkey := "-"
+	if raw := chain.VerifC05Store(cs).Get(dbkey.LatestBlock()); len(raw) == 8 {
+		lkey = fmt.Sprint(types.BlockNoFromBytes(raw))
 	}
 	var txs []string
 	for _, h := range s.txHashes {
@@ -244,9 +285,25 @@ func (s *session) observe() string {
 	if chain.VerifC05HasMarker(cs) {
 		marker = "1"
 	}
-	return fmt.Sprintf("best=%s/%d latest=%d root=%s marker=%s byno=%s blocks=%s tx=%s rcpt=%s orph=%s bad=%s",
-		tk(best.BlockHash()), best.BlockNo(), latest, tk(cs.SDB().GetRoot()), marker, joinOr(byno), blocks.String(), joinOr(txs), rc.String(),
-		joinOr(orph), joinOr(bad))
+	return fmt.Sprintf("best=%s/%d latest=%d lkey=%s root=%s marker=%s byno=%s blocks=%s tx=%s rcpt=%s rq=%s rn=%s orph=%s bad=%s",
+		tk(best.BlockHash()), best.BlockNo(), latest, lkey, tk(cs.SDB().GetRoot()), marker, joinOr(byno), blocks.String(), joinOr(txs), rc.String(),
+		rq.String(), rn.String(), joinOr(orph), joinOr(bad))
+}
+
+// receiptsByHash: does the query "receipts of the block with this hash" answer with receipts. A panic of the query
+// (candidate defect reported to the lead: getReceipts dereferences the missing main-chain block when the stored block is
+// numbered above the best block) is counted and read as "no receipts".
+func (s *session) receiptsByHash(h []byte) bool {
+	ok := false
+	if _, pan := vh.Guard(func() string {
+		r, err := chain.VerifC05GetReceipts(s.n.cs, h)
+		ok = err == nil && r != nil
+		return ""
+	}); pan {
+		s.e.run.Count("observation:getReceipts-panics-for-a-stored-side-block-above-the-best-height")
+		return false
+	}
+	return ok
 }
 
 // txAnswer: the answer classes of the query "transaction by hash"
@@ -387,6 +444,7 @@ func (s *session) oracleC05(sn *snap) {
 			}
 		}
 	}
+	s.oracleQueries(sn)
 	// (5) the current state root is the best block's state root
 	if !bytes.Equal(sn.root, sn.best.GetHeader().GetBlocksRootHash()) {
 		known := ""
